@@ -498,7 +498,7 @@ func (p *prover) regexpOf(v ssa.Value) (*reShape, int) {
 		return nil, 0
 	}
 	pkg := shortQual(g.Pkg.Pkg)
-	key := pkg + "." + g.Name()
+	key := p.w.Dir + "\x00" + pkg + "." + g.Name() // per tree: the self-tests load scratch copies in the same process
 	if sh, ok := regexpLemmaCache[key]; ok {
 		return sh, sh.Groups
 	}
@@ -850,7 +850,7 @@ var lemmaCache = map[string]bool{}
 // decoderParallelOK: in fromAuditRuleData the last stores to fields/fieldFlags/values are make()
 // calls with the same length value, and nothing later in the function stores those fields.
 func (w *World) decoderParallelOK(f *ssa.Function) bool {
-	key := w.GOARCH + "/decoder"
+	key := w.Dir + "\x00" + w.GOARCH + "/decoder"
 	if v, ok := lemmaCache[key]; ok {
 		return v
 	}
@@ -886,7 +886,7 @@ func (w *World) decoderParallelOK(f *ssa.Function) bool {
 // addFilter, addInterFieldComparator or fromAuditRuleData, and for every field code addFilter
 // appends exactly one of each on success and nothing on error (the C06.R5 analysis).
 func (w *World) encoderParallelOK() bool {
-	key := w.GOARCH + "/encoder"
+	key := w.Dir + "\x00" + w.GOARCH + "/encoder"
 	if v, ok := lemmaCache[key]; ok {
 		return v
 	}
@@ -927,7 +927,7 @@ func (w *World) encoderParallelOK() bool {
 
 // offsetInvariant: premise of lemma offset-invariant.
 func (p *prover) offsetInvariant() bool {
-	key := p.w.GOARCH + "/offset"
+	key := p.w.Dir + "\x00" + p.w.GOARCH + "/offset"
 	if v, ok := lemmaCache[key]; ok {
 		return v
 	}
@@ -1034,7 +1034,7 @@ func (p *prover) applyPreconds() {
 	if !ok {
 		return
 	}
-	key := p.w.GOARCH + "/" + name
+	key := p.w.Dir + "\x00" + p.w.GOARCH + "/" + name
 	okAll, cached := precondCache[key]
 	if !cached {
 		precondCache[key] = false
